@@ -83,3 +83,8 @@ add("C20", "exploration",
     "Held on the executions explored: no race-detector report with a library frame over server workloads (serving, registering, notifying, roots requests, sessions and streams coming and going, user code on Session objects) and client workloads (concurrent calls, handler / roots-provider changes, pushed notifications, TerminateSession and Close with calls in flight) on all transports.",
     "The race detector sees only races on driven paths and occurring interleavings; it says nothing about undriven code.",
     "DESIGN.md section 4 C20")
+add("C18", "exploration",
+    "runtime monitoring: struct types built at run time with reflect.StructOf from a feature grammar plus a compiled corpus of recursive / generic types, all generation styles, generator run in child processes under a watchdog; Python jsonschema (Draft 2020-12) oracle for meta-validation, $ref resolution and instance validation; encoding/json itself as the oracle for field names and typed-handler binding; failures attributed to minimal feature sets by delta debugging",
+    "Held on the executions explored (apart from the three open known findings on embedded structs and duplicate JSON names): generation terminated for every generated type and style, every document was a valid 2020-12 schema with all $ref values resolving inside it, property names equalled encoding/json's field names, fully populated values were accepted, typed handlers received exactly the sent value (integers to +-2^53), and schemas read through tools/list equalled the registered ones.",
+    "A recursive pointer field without omitempty has no finite fully populated value; only termination, meta-schema, $ref and names are judged there. Open known findings: C18|stage1|style=*|feature=embedded|*, embedded-ptr, dup-name.",
+    "DESIGN.md section 4 C18")
